@@ -13,6 +13,10 @@ CHECKS = {
   text="Speciation.tla states the rule (nearest representative among those closer than the threshold, else a new species with id LastSpecies+1) and transcribes Population.speciate; TLC checks the transcription against the rule, the partition, the founder-or-within-threshold consequence and id freshness for every existing population, batch, arrival order and threshold in scope, and emits every behaviour; each is rebuilt from real genomes/organisms/species and run through the real speciate under both compatibility methods (whole batch and organism by organism) comparing every organism's species, LastSpecies, membership lists and back pointers. In addition every speciate call of real constructors (NewPopulation, NewPopulationRandom, ReadPopulation), of the reproduction phase of both epoch executors and of evolved populations receiving foreign organisms is recorded with distances recomputed from the definition and validated by the TLC trace specification Trace_Speciation.",
   note="Exhaustive: genomes = every subset of 3 innovation numbers (quick; 4 thorough), up to 2-3 existing species with 1-2 members, batches of 2-3 arrivals in every order, thresholds straddling the distances including distance = threshold, integer/dyadic coefficients so that every float operation is exact. Larger scopes (5 innovation numbers, 4 species, 6 arrivals) by TLC simulation. Real evolved populations are sampled (seeded); there the arrival order inside an epoch is not observable, so epochs are checked for the consequence clause, 'no closer pre-existing species' and id freshness, while constructors and direct calls are re-executed arrival by arrival (fixed point 2^-20, tolerance 2 units). Trusted: TLC, the replayer's construction of populations, the recorder's independent distance function.",
   technique=B2 + " + " + "TLA+ trace validation (TLC) of recorded executions", ref="DESIGN.md 7/C08"),
+ "C09": dict(
+  text="Quota.tla transcribes the preparation phase of an epoch in exact integer arithmetic (adjustFitness: stagnation penalty, youth boost, sharing, parent cut-off; expected offspring = shared adjusted fitness / population mean; countOffspring floor-and-carry in species order; make-up offspring / population-died fallback; zero-quota purge; species sort and population stagnation; stolen babies; delta coding). TLC checks on every population in scope that quotas total the population size after every stage, that every quota is within one of its members' expected offspring (plus the single make-up offspring), the parent cut-off floor(t*n)+1 and the zero-quota purge, and emits every behaviour with every admissible float64 loss vector; each is installed in a real Population and run through the real adjustFitness / purgeZeroOffspringSpecies (compared after each), the real prepareForReproduction + Species.reproduce per species (offspring per species = quota) and the three executor phases of a whole epoch. In addition real populations evolved with real-valued fitness families under randomised options are recorded after the preparation phase and validated by the TLC trace specification Trace_Quota (fixed point 2^-20).",
+  note="Exhaustive: populations of up to 6 organisms (quick; 8 thorough) in up to 3 (4) species, every multiset of raw fitness over 0..2 or 0..3 with at least one positive value, age classes covering fresh / stagnant / debt-exactly-0 / age 10 vs 11 / improving-now, survival thresholds 1/4, 1/2, 3/4, 1, babies stolen 1..N/2, population one or two epochs before delta coding; the coin of giveBabiesToTheBest (4th sorted species) is forced through the seed. float64: where the exact cumulative expectation at a species boundary is an integer the floor may come out one lower - both outcomes are enumerated and the one the real arithmetic takes is compared exactly; per-organism values to 1e-9 relative. Who receives stolen babies / the make-up offspring, the species order and the stagnation bookkeeping are compared too but only reported (the statement demands totals). Real-valued fitness is sampled (seeded), tolerance 4 units of 2^-20. Trusted: TLC, the replayer's construction of populations.",
+  technique=B2 + " + " + "TLA+ trace validation (TLC) of recorded executions", ref="DESIGN.md 7/C09"),
 }
 
 
@@ -127,3 +131,84 @@ def c08(ctx, replay):
     ctx.extra["b1"] = rep.get("extra", {})
     ctx.extra["b1"]["speciate_calls_validated"] = rep.get("cases", 0)
     ctx.extra["b1"]["organisms_assigned"] = rep.get("evaluations", 0)
+
+
+# ------------------------------------------------------------------------------------------------ C09
+def _c09_record(ctx, scenarios, epochs, seed, tag):
+    trace = ctx.path("quota_trace_%s.ndjson" % tag)
+    rep_file = ctx.path("quota_rec_%s.json" % tag)
+    _, rep, _ = ctx.vh(["rec-quota", "-out", trace, "-report", rep_file, "-scenarios", str(scenarios),
+                        "-epochs", str(epochs)], pkg="vh_species", expect_report=rep_file, env={"VERIF_SEED": str(seed)})
+    r = ctx.tlc("Trace_Quota", env={"TRACE": trace}, workers=1, timeout=1500)
+    return trace, rep, r
+
+
+@pipeline("C09")
+def c09(ctx, replay):
+    thorough = ctx.tier == "thorough"
+    ctx.rule = ("B2 cases = behaviours of MC_Quota (population of species with integer raw fitness / ages / stagnation state, "
+                "options, loss vector, coin) compared under the loss vector the real float64 arithmetic takes; B1 events = "
+                "one per epoch of a real population with real-valued fitness; non-trivial = a fraction of an expected "
+                "offspring is carried over a species boundary, or a make-up offspring is given, or babies are actually "
+                "stolen, or delta coding fires")
+    ctx.assumptions = ["finite non-negative fitness with at least one positive value; survival threshold in (0,1]; babies "
+                       "stolen 0..N/2 (quantifier of C09)",
+                       "float64 floor at an exact integer boundary of the cumulative expectation may be one lower: both "
+                       "outcomes are modelled, the one taken is compared exactly",
+                       "per-organism adjusted fitness / expected offspring compared to 1e-9 relative; real-valued runs: "
+                       "fixed point 2^-20, tolerance 4 units",
+                       "recipient of stolen babies / make-up offspring, species order, stagnation bookkeeping: reported, "
+                       "not alarmed (the statement demands totals)"]
+    cases_file = ctx.path("quota_cases.ndjson")
+    b1 = None
+    if replay is not None:
+        write_lines(cases_file, replay_cases(replay))
+        for v in replay.get("violations", []):
+            p = v.get("replay", {})
+            if p.get("kind") == "quota-trace":
+                b1 = p
+    else:
+        cfg = "MC_Quota_thorough.cfg" if thorough else "MC_Quota.cfg"
+        mc = ctx.tlc("MC_Quota", cfg, timeout=3000)
+        spec_must_hold(mc, cfg)
+        n = cat_files(cases_file, [mc.cases_file])
+        ctx.exhaustive = True
+        ctx.extra["scope"] = {"behaviours": n, "config": cfg}
+    if replay is None or os.path.getsize(cases_file) > 0:
+        rep_file = ctx.path("quota_report.json")
+        _, rep, _ = ctx.vh(["replay-quota", "-cases", cases_file, "-out", rep_file], pkg="vh_species",
+                           expect_report=rep_file, timeout=3000)
+        ex = rep.get("extra", {})
+        if replay is None and ex.get("inputs_without_matching_behaviour", 0) and not rep.get("failures"):
+            raise Infra("MC_Quota: %d inputs were not compared under any loss vector (the model of float64 loss is "
+                        "incomplete): %s" % (ex["inputs_without_matching_behaviour"], ex.get("unmatched_sample")))
+        ctx.add_report(rep, "quota", traces=ex.get("behaviours_compared", 0))
+        ctx.extra["b2"] = ex
+    if replay is not None and b1 is None:
+        return
+    scen, epochs = (500, 16) if thorough else (50, 10)
+    seed = ctx.seed
+    if b1 is not None:
+        scen, epochs, seed = b1["scenarios"], b1["epochs"], b1["seed"]
+    trace, rep, r = _c09_record(ctx, scen, epochs, seed, "a")
+    if r.violated:
+        trace2, _, r2 = _c09_record(ctx, scen, epochs, seed, "b")
+        if not r2.violated:
+            raise Infra("Trace_Quota rejected a recorded epoch but the re-recorded run was accepted (unreproduced counterexample)")
+        idx, ev = _trace_violation(ctx, r2, trace2, "Inv_C09")
+        clauses = re.findall(r"(\w+) \|-> FALSE", r2.last_state.get("verdict", ""))
+        clauses = [c for c in clauses if c != "ok"]
+        what = ("recorded epoch #%s (%s, generation %s, mode %s) is rejected by Trace_Quota: clause(s) %s false" % (
+            idx, (ev or {}).get("src"), (ev or {}).get("gen"), (ev or {}).get("mode"), ", ".join(clauses) or "?"))
+        ctx.violation(what, "quota-trace %s" % ",".join(clauses),
+                      {"kind": "quota-trace", "seed": seed, "scenarios": scen, "epochs": epochs, "line": idx,
+                       "event": ev if ev and len(json.dumps(ev)) < 20000 else None, "failure": {"what": what}})
+    elif not r.ok:
+        raise Infra("Trace_Quota did not accept the trace:\n" + r.output[-2000:])
+    ctx.evaluations += rep.get("evaluations", 0)
+    ctx.nontrivial += rep.get("distinct_nontrivial", 0)
+    ctx.traces += rep.get("cases", 0)
+    for s in rep.get("samples", [])[:1]:
+        ctx.samples.append(s)
+    ctx.extra["b1"] = rep.get("extra", {})
+    ctx.extra["b1"]["epochs_validated"] = rep.get("cases", 0)
